@@ -32,7 +32,7 @@ var npmOracle *oracle.Server
 
 func TestMain(m *testing.M) {
 	kf, _ = known.Load(ev.KnownFile())
-	rec.Rule("generated npm universes (2-12 packages, 1-5 versions each incl. prereleases, Blocked and latest/next-tagged versions, regular/optional/dev/peer/bundle-scoped requirements, ranges of every operator kind, tags, unsatisfiable requirements, cycles, diamond conflicts, aliases) and every root; oracle = validity predicates over the returned graph and the final install tree (verif hook), with requirement satisfaction tabulated by node-semver (7.x and 5.7.1, asserted where they agree): (1) every edge target satisfies its requirement (range, tag/exact string, or * reusing an installed copy), (2) every surviving requirement has an edge or a node error, (3) every node reachable from the root, (4) a fresh install picks latest if it satisfies, else the highest non-Blocked satisfying version, else the highest, (5) no directory holds two entries of one name, (6) Node's walk-up lookup from the dependent lands on the edge's target. One evaluation = one (universe, root) resolution checked. Non-trivial: nested install (tree depth >= 2), dedup hit, alias or node error. Distinct = distinct (universe, root).")
+	rec.Rule("generated npm universes (2-12 packages, 1-5 versions each incl. prereleases, Blocked and latest/next-tagged versions, regular/optional/dev/peer/bundle-scoped requirements, ranges of every operator kind, tags, unsatisfiable requirements, cycles, diamond conflicts, aliases) and every root; oracle = validity predicates over the returned graph and the final install tree (verif hook), with requirement satisfaction tabulated by node-semver (7.x and 5.7.1, asserted where they agree): (1) every edge target satisfies its requirement (range, tag/exact string, or * reusing an installed copy), (2) every surviving requirement has an edge or a node error, (3) every node reachable from the root, (4) a fresh install picks latest if it satisfies, else the highest non-Blocked satisfying version, else the highest, (5) no directory holds two entries of one name, (6) Node's walk-up lookup from the dependent lands on the edge's target. One evaluation = one (universe, root) resolution checked. Non-trivial: nested install (tree depth >= 2), dedup hit, alias or node error. Distinct = distinct (universe, root). A Resolve that fails on a universe whose root exists is a violation too (requirements that cannot be resolved are node errors); aliases may name a real package, carry a dist-tag, or be declared at two places; a second version of a package may carry tags whose names contain a dist-tag name.")
 	var err error
 	if npmOracle, err = oracle.Start("npm"); err == nil {
 		rec.Extra("oracle_npm", npmOracle.Version)
